@@ -28,6 +28,7 @@
 #define private public
 #include "build.h"
 #include "state.h"
+#include "clean.h"
 #undef private
 #include "build_log.h"
 #include "clean.h"
@@ -767,6 +768,7 @@ void RunScenarioStep(Scenario* sc, const vector<string>& w, vector<string>* ev, 
     sc->disk.oplog = nullptr;
     for (auto& o : ops) ev->push_back("ev " + o);
     ev->push_back("ev clean-result rc=" + std::to_string(rc) + " count=" + std::to_string(cleaner.cleaned_files_count()));
+    { string l = "ev clean-attempted"; for (auto& p : cleaner.removed_) l += " " + hex(p); ev->push_back(l); }
     DumpState(sc, ev);
   }
   else { ev->push_back("ev bad-step " + op); }
